@@ -125,6 +125,28 @@ func filterTableExpressions(parseResult *pg_query.ParseResult) ([]*pg_query.Node
 	}
 }
 
+// isValueNode tells whether node is a literal or a placeholder, optionally wrapped into type casts
+func isValueNode(node *pg_query.Node) bool {
+	for node.GetTypeCast() != nil {
+		node = node.GetTypeCast().GetArg()
+	}
+	return node.GetAConst() != nil || node.GetParamRef() != nil
+}
+
+// normalizeOperandOrder turns <VALUE> = <ColName> and <VALUE> <> <ColName> into <ColName> = <VALUE> and <ColName> <> <VALUE>,
+// the only operand order the filter and the observers that rewrite the filtered expressions work with
+func normalizeOperandOrder(expr *pg_query.A_Expr) {
+	if expr.GetKind() != pg_query.A_Expr_Kind_AEXPR_OP || len(expr.GetName()) != 1 {
+		return
+	}
+	if operator := expr.GetName()[0].GetString_().GetSval(); operator != "=" && operator != "<>" {
+		return
+	}
+	if expr.GetRexpr().GetColumnRef() != nil && isValueNode(expr.GetLexpr()) {
+		expr.Lexpr, expr.Rexpr = expr.Rexpr, expr.Lexpr
+	}
+}
+
 // filterColumnEqualComparisonExprs return only <ColName> = <VALUE> or <ColName> != <VALUE> or <ColName> <=> <VALUE> expressions
 func (filter *SearchableQueryFilter) filterColumnEqualComparisonExprs(whereNode *pg_query.Node, tableExpr []*pg_query.Node) ([]SearchableExprItem, error) {
 	var exprs []SearchableExprItem
@@ -134,6 +156,9 @@ func (filter *SearchableQueryFilter) filterColumnEqualComparisonExprs(whereNode 
 		if expr == nil {
 			return true, nil
 		}
+
+		// <VALUE> = <ColName> means the same as <ColName> = <VALUE>
+		normalizeOperandOrder(expr)
 
 		var lColumn = expr.Lexpr.GetColumnRef()
 		if lColumn == nil {
